@@ -748,6 +748,12 @@ impl Store {
         value: ValueEntry,
         force: bool,
     ) -> StoreResult<(bool, Option<Vec<AffectedLsSubscribers>>)> {
+        // decide before touching the tree: a rejected insert must not leave empty nodes behind
+        if let Some(e) = Store::rejection(self.get_node(path).and_then(Node::value), &value, force)
+        {
+            return Err(e);
+        }
+
         let mut ls_subscribers: Option<Vec<(Vec<LsSubscriber>, &[String])>> = None;
         let mut current_node = &mut self.data;
         let mut current_subscribers = Some(&self.subscribers);
@@ -840,6 +846,27 @@ impl Store {
         });
 
         Ok((value_changed, ls_subscribers))
+    }
+
+    /// The cases in which `insert` refuses to replace `current` by `value`
+    fn rejection(
+        current: Option<&ValueEntry>,
+        value: &ValueEntry,
+        force: bool,
+    ) -> Option<StoreError> {
+        if force {
+            return None;
+        }
+        match (current, value) {
+            (None | Some(ValueEntry::Plain(_)), ValueEntry::Cas(_, v)) if *v != 0 => {
+                Some(StoreError::CasVersionMismatch)
+            }
+            (Some(ValueEntry::Cas(_, _)), ValueEntry::Plain(_)) => Some(StoreError::Cas),
+            (Some(ValueEntry::Cas(_, v_curr)), ValueEntry::Cas(_, v)) if v_curr != v => {
+                Some(StoreError::CasVersionMismatch)
+            }
+            _ => None,
+        }
     }
 
     pub fn ls(&self, path: &[impl AsRef<str>]) -> Option<Vec<RegularKeySegment>> {
